@@ -602,12 +602,24 @@ func init() {
 		ID: "C04.R18", Props: []string{"C04", "C17", "C05"}, Min: 2,
 		Doc: "the pool of scope maps belongs to the stack: mapPool is used by methods of *Stack only (Push takes an empty map out, Pop empties it and puts it back). Push(nil) relies on what comes out being empty; a map that another function borrows and returns with entries in it becomes the next loop iteration's scope with those entries as variables",
 		Run: func(p *Prog, c *Ctx) {
+			// the pool: the package-level sync.Pool that Stack.Push takes its maps from (whatever it is called)
+			pools := map[*ssa.Global]bool{}
+			eachInstr(p.MustFn("(*vuego.Stack).Push"), func(in ssa.Instruction) {
+				for _, op := range in.Operands(nil) {
+					if g, ok := (*op).(*ssa.Global); ok && isNamed(g.Type(), "sync", "Pool") {
+						pools[g] = true
+					}
+				}
+			})
+			if len(pools) == 0 {
+				undecided("Stack.Push takes its maps from no package-level pool")
+			}
 			n := 0
 			for _, fn := range p.liveFuncs() {
 				eachInstr(fn, func(in ssa.Instruction) {
 					for _, op := range in.Operands(nil) {
 						g, ok := (*op).(*ssa.Global)
-						if !ok || g.Pkg == nil || g.Pkg.Pkg.Path() != modPath || g.Name() != "mapPool" {
+						if !ok || !pools[g] {
 							continue
 						}
 						n++
@@ -617,7 +629,7 @@ func init() {
 				})
 			}
 			if n == 0 {
-				undecided("the module no longer has a mapPool")
+				undecided("the pool of scope maps is used nowhere")
 			}
 		},
 	})
@@ -777,9 +789,27 @@ func init() {
 			if len(loaded) == 0 {
 				undecided("evalInclude loads no file through the loader")
 			}
+			// the same value, or the same sources (a name kept in a variable that a closure captures is loaded anew at every use)
 			same := func(v ssa.Value) bool {
+				vo := map[ssa.Value]bool{}
+				for _, o := range p.origins(v, OriginOpts{}) {
+					vo[o] = true
+				}
 				for _, l := range loaded {
 					if l == v {
+						return true
+					}
+					lo := p.origins(l, OriginOpts{})
+					if len(lo) != len(vo) || len(lo) == 0 {
+						continue
+					}
+					all := true
+					for _, o := range lo {
+						if !vo[o] {
+							all = false
+						}
+					}
+					if all {
 						return true
 					}
 				}
@@ -855,22 +885,24 @@ func init() {
 
 	register(&Rule{
 		ID: "C20.R20", Props: []string{"C20"}, Min: 1,
-		Doc: "a destination is written the way the reference renderer writes it: linkDestination percent-encodes through util.URLEscape with reference resolution switched on (its second argument is the constant true). goldmark keeps a destination as source bytes: without the resolution `[a](/p\\_q)` gets `%5C_` and `&amp;` in a query becomes `&amp;amp;`",
+		Doc: "a destination is written the way the reference renderer writes it: wherever the Markdown package percent-encodes a destination (linkDestination) it calls util.URLEscape with reference resolution switched on (its second argument is the constant true). goldmark keeps a destination as source bytes: without the resolution `[a](/p\\_q)` gets `%5C_` and `&amp;` in a query becomes `&amp;amp;`",
 		Run: func(p *Prog, c *Ctx) {
-			fn := p.MustFn("markdown.linkDestination")
 			n := 0
-			walkFuncTree(fn, func(f *ssa.Function) {
+			for _, f := range p.liveFuncs() {
+				if pk := funcPkg(f); pk == nil || pk.Path() != markdownPkg {
+					continue
+				}
 				for _, site := range callsIn(f) {
 					if !strings.HasSuffix(calleeName(site.Common()), "util.URLEscape") || len(site.Common().Args) != 2 {
 						continue
 					}
 					n++
 					k, ok := site.Common().Args[1].(*ssa.Const)
-					c.check(ok && k.Value != nil && k.Value.String() == "true", fmt.Sprintf("linkDestination: URLEscape#%d resolves references", n), p.instrPos(site), "resolveReference = true", "the destination is percent-encoded without resolving backslash escapes and character references first: `\\_` is written as %5C_, `&amp;` as &amp;amp; — another URL than the reference renderer's")
+					c.check(ok && k.Value != nil && k.Value.String() == "true", fmt.Sprintf("%s: URLEscape#%d resolves references", shortName(f), n), p.instrPos(site), "resolveReference = true", "the destination is percent-encoded without resolving backslash escapes and character references first: `\\_` is written as %5C_, `&amp;` as &amp;amp; — another URL than the reference renderer's")
 				}
-			})
+			}
 			if n == 0 {
-				undecided("linkDestination no longer goes through util.URLEscape")
+				undecided("the Markdown package no longer percent-encodes destinations through util.URLEscape")
 			}
 		},
 	})
